@@ -125,9 +125,8 @@ def check_case(case) -> Result:
         tol = 1e-6 * (k + 1) + 1e-4 * (k * (n_tab + 1) if pep['isotope'] else 0)
         if abs(d) > tol:
             lab = refmods.mods_mass(pep['labile'], True)
-            T = sum(refmods.mods_mass(ms, True) * sum(1 for t in tg if t in ('N-Term', 'C-Term')) for ms, tg in pep['static'])
-            Q = (k - 1) * (lab + T)
-            comps = [nm for nm, v in (('labile', lab), ('static-terminal-rule', T)) if v]
+            Q = (k - 1) * lab
+            comps = ['labile'] if lab else []
             if comps and abs(d - Q) <= tol + 1e-5 * k + 1e-4 * k:
                 sig = 'C07/mass-sum/labile-or-static-terminal-rule-copied-to-every-peptide'
             else:
